@@ -9,7 +9,7 @@
 (* One action per step of the spawned task; requests of one session are    *)
 (* separate streams whose steps interleave freely (HTTP/2) .               *)
 (***************************************************************************)
-EXTENDS Naturals, Sequences, FiniteSets, TLC
+EXTENDS Naturals, Sequences, FiniteSets, TLC, TunnelCodes
 
 CONSTANTS Streams        \* e.g. 1..2
 
@@ -44,6 +44,13 @@ TcpOutcomes == {"ok", "refused", "unreachable", "connTimeout", "never", "loopbac
                 "resolver", "emfile", "other"}
 MuxOutcomes == {"ok", "err", "notconf"}
 
+\* A multiplexer request made with credentials for the forwarder is first put to the forwarder's
+\* credentials probe (Forwarder::datagram_mux_authenticator().check_auth; the SOCKS5 forwarder
+\* makes a probe UDP ASSOCIATE to the upstream proxy, Socks5.tla).  The probe succeeds, or fails
+\* with an error of one of the kinds the forwarder can report; the environment chooses.
+ProbeErrors == {"Authentication", "Io", "Other", "Timeout", "HostUnreachable"}
+ProbeOutcomes == {"ok"} \cup ProbeErrors
+
 Cfgs == [authn : BOOLEAN, sni : {"none", "accepted", "rejected"}]
 
 --------------------------------------------------------------------------
@@ -73,13 +80,21 @@ AuthVerdicts(a, cfg) ==
     ELSE IF HeaderMaybeValid(a) THEN {"pass", "r407"}
     ELSE {"r407"}
 
+\* Does the tunnel hand credentials to the forwarder for this request (tunnel.rs: the
+\* `forwarder_auth` of the five-way match)?  The request's own Basic credentials once they passed
+\* (without an authenticator: whenever the header carries Basic credentials), else the SNI
+\* credentials of a connection an authenticator accepted.  "maybe" where that depends on how a
+\* malformed header is read.
+FwdCreds(a, c) ==
+    IF a \in {"valid1", "valid2"} THEN "yes"
+    ELSE IF a = "absent" THEN (IF c.authn /\ c.sni = "accepted" THEN "yes" ELSE "no")
+    ELSE IF ~c.authn /\ a \in {"wrongUser", "wrongPass"} THEN "yes"
+    ELSE "maybe"
+
 --------------------------------------------------------------------------
 (* C10: dispatch and the response table *)
 
-Resp(st, warn, host, chal) == [status |-> st, warn |-> warn, host |-> host, challenge |-> chal]
-R200 == Resp(200, 0, FALSE, FALSE)
-R407 == Resp(407, 0, FALSE, TRUE)
-R502(w, h) == Resp(502, w, h, FALSE)
+\* (Resp, R200, R407, R502 and the error -> response table ErrResp: TunnelCodes.tla)
 
 \* status / X-Warning code / X-Adguard-Vpn-Error for a failed outbound attempt
 TcpFailure(o) ==
@@ -87,9 +102,9 @@ TcpFailure(o) ==
       [] o = "resolver"    -> R502(300, FALSE)
       [] o = "emfile"      -> R502(300, FALSE)
       [] o = "other"       -> R502(300, FALSE)
-      [] o = "unreachable" -> R502(301, FALSE)
-      [] o = "connTimeout" -> R502(302, FALSE)
-      [] o = "never"       -> R502(302, FALSE)       \* establishment timeout of the tunnel
+      [] o = "unreachable" -> ErrResp("HostUnreachable")
+      [] o = "connTimeout" -> ErrResp("Timeout")
+      [] o = "never"       -> ErrResp("Timeout")     \* establishment timeout of the tunnel
       [] o = "nonroutable" -> R502(310, TRUE)
       [] o = "loopback"    -> R502(311, TRUE)
 
@@ -107,23 +122,26 @@ VARIABLES
     cfg,        \* connection-level configuration
     req,        \* [Streams -> [kind, auth]]
     out,        \* [Streams -> outcome the environment will produce]
+    probe,      \* [Streams -> outcome of the forwarder's credentials probe (multiplexer requests)]
     phase,      \* [Streams -> phase]
     resp,       \* [Streams -> sequence of final responses]
     egress,     \* set of <<stream, what>> : forwarder calls
     piping,     \* streams whose pipe / multiplexer is running
     connOpen    \* the session exists (SNI authentication did not drop it)
 
-vars == << cfg, req, out, phase, resp, egress, piping, connOpen >>
+vars == << cfg, req, out, probe, phase, resp, egress, piping, connOpen >>
 
 Outcomes(k) == IF Dispatch(k) = "tcp" THEN TcpOutcomes ELSE IF Dispatch(k) = "mux" THEN
                    (IF k = "icmp" THEN MuxOutcomes ELSE {"ok", "err"}) ELSE {"ok"}
 
-InitWith(c, r, o) ==
-    /\ cfg = c /\ req = r /\ out = o
+InitWithProbe(c, r, o, p) ==
+    /\ cfg = c /\ req = r /\ out = o /\ probe = p
     /\ phase = [s \in Streams |-> "idle"]
     /\ resp = [s \in Streams |-> << >>]
     /\ egress = {} /\ piping = {}
     /\ connOpen = ~(c.authn /\ c.sni = "rejected")
+
+InitWith(c, r, o) == InitWithProbe(c, r, o, [s \in Streams |-> "ok"])
 
 \* core.rs on_tunnel_request: a connection whose SNI credentials are rejected is dropped
 \* before any request is read; nothing below is enabled for it.
@@ -132,7 +150,7 @@ InitWith(c, r, o) ==
 Receive(s) ==
     /\ connOpen /\ phase[s] = "idle"
     /\ phase' = [phase EXCEPT ![s] = "seen"]
-    /\ UNCHANGED << cfg, req, out, resp, egress, piping, connOpen >>
+    /\ UNCHANGED << cfg, req, out, probe, resp, egress, piping, connOpen >>
 
 \* the five-way match on (auth_info, policy, authenticator)
 AuthDecide(s) ==
@@ -143,7 +161,7 @@ AuthDecide(s) ==
                             /\ resp' = [resp EXCEPT ![s] = Append(@, R407)]
            [] v = "r502" -> /\ phase' = [phase EXCEPT ![s] = "done"]
                             /\ resp' = [resp EXCEPT ![s] = Append(@, R502(300, FALSE))]
-    /\ UNCHANGED << cfg, req, out, egress, piping, connOpen >>
+    /\ UNCHANGED << cfg, req, out, probe, egress, piping, connOpen >>
 
 \* PendingRequest::promote_to_next_state of http_downstream.rs
 Promote(s) ==
@@ -157,9 +175,8 @@ Promote(s) ==
                                /\ phase' = [phase EXCEPT ![s] = "done"] /\ UNCHANGED egress
          [] d = "tcp"       -> /\ egress' = egress \cup {<< s, "tcp" >>}          \* connector.connect
                                /\ phase' = [phase EXCEPT ![s] = "connecting"] /\ UNCHANGED resp
-         [] d = "mux"       -> /\ egress' = egress \cup {<< s, req[s].kind >>}    \* make_*_multiplexer
-                               /\ phase' = [phase EXCEPT ![s] = "muxing"] /\ UNCHANGED resp
-    /\ UNCHANGED << cfg, req, out, piping, connOpen >>
+         [] d = "mux"       -> /\ phase' = [phase EXCEPT ![s] = "probing"] /\ UNCHANGED << resp, egress >>
+    /\ UNCHANGED << cfg, req, out, probe, piping, connOpen >>
 
 \* the outbound attempt ends (or the establishment timer fires for "never")
 ConnectEnd(s) ==
@@ -169,7 +186,22 @@ ConnectEnd(s) ==
               /\ phase' = [phase EXCEPT ![s] = "piping"] /\ piping' = piping \cup {s}
          ELSE /\ resp' = [resp EXCEPT ![s] = Append(@, TcpFailure(out[s]))]
               /\ phase' = [phase EXCEPT ![s] = "done"] /\ UNCHANGED piping
-    /\ UNCHANGED << cfg, req, out, egress, connOpen >>
+    /\ UNCHANGED << cfg, req, out, probe, egress, connOpen >>
+
+\* on_datagram_mux_request, first step: with credentials for the forwarder, its probe.  A failed
+\* probe fails the request with the probe's own error (an authentication error only when the
+\* credentials were rejected); otherwise make_*_multiplexer is called.
+MuxProbe(s) ==
+    /\ phase[s] = "probing"
+    /\ \E has \in (CASE FwdCreds(req[s].auth, cfg) = "yes" -> {TRUE}
+                     [] FwdCreds(req[s].auth, cfg) = "no" -> {FALSE}
+                     [] OTHER -> BOOLEAN) :
+         IF has /\ probe[s] # "ok"
+           THEN /\ resp' = [resp EXCEPT ![s] = Append(@, ErrResp(probe[s]))]
+                /\ phase' = [phase EXCEPT ![s] = "done"] /\ UNCHANGED egress
+           ELSE /\ egress' = egress \cup {<< s, req[s].kind >>}               \* make_*_multiplexer
+                /\ phase' = [phase EXCEPT ![s] = "muxing"] /\ UNCHANGED resp
+    /\ UNCHANGED << cfg, req, out, probe, piping, connOpen >>
 
 \* the multiplexer is accepted, or cannot be made
 MuxEnd(s) ==
@@ -179,20 +211,20 @@ MuxEnd(s) ==
               /\ phase' = [phase EXCEPT ![s] = "piping"] /\ piping' = piping \cup {s}
          ELSE /\ resp' = [resp EXCEPT ![s] = Append(@, R502(300, FALSE))]
               /\ phase' = [phase EXCEPT ![s] = "done"] /\ UNCHANGED piping
-    /\ UNCHANGED << cfg, req, out, egress, connOpen >>
+    /\ UNCHANGED << cfg, req, out, probe, egress, connOpen >>
 
 \* the pipe ends (either way): no further response on the stream
 PipeEnd(s) ==
     /\ phase[s] = "piping"
     /\ phase' = [phase EXCEPT ![s] = "done"] /\ piping' = piping \ {s}
-    /\ UNCHANGED << cfg, req, out, resp, egress, connOpen >>
+    /\ UNCHANGED << cfg, req, out, probe, resp, egress, connOpen >>
 
-Next == \E s \in Streams : Receive(s) \/ AuthDecide(s) \/ Promote(s) \/ ConnectEnd(s) \/ MuxEnd(s) \/ PipeEnd(s)
+Next == \E s \in Streams : Receive(s) \/ AuthDecide(s) \/ Promote(s) \/ ConnectEnd(s) \/ MuxProbe(s) \/ MuxEnd(s) \/ PipeEnd(s)
 
 --------------------------------------------------------------------------
 (* properties *)
 
-TypeOK == \A s \in Streams : phase[s] \in {"idle", "seen", "passed", "connecting", "muxing", "piping", "done"}
+TypeOK == \A s \in Streams : phase[s] \in {"idle", "seen", "passed", "connecting", "probing", "muxing", "piping", "done"}
 
 \* C01: no outbound traffic, and no health-check 200, for a request that is not authorised
 NoEgressUnauth ==
@@ -220,8 +252,12 @@ ReservedNeverDialled ==
                         => << s, "tcp" >> \notin egress
 
 \* C10: the response is the documented one
-FinalSet(k, a, c, o) ==
-    LET vs == AuthVerdicts(a, c) IN
+FinalSetP(k, a, c, o, p) ==
+    LET vs == AuthVerdicts(a, c)
+        MuxMade == IF o = "ok" THEN [r |-> R200, egress |-> TRUE, pipe |-> TRUE]
+                   ELSE [r |-> R502(300, FALSE), egress |-> TRUE, pipe |-> FALSE]
+        ProbeFailed == [r |-> ErrResp(p), egress |-> FALSE, pipe |-> FALSE]
+    IN
     (IF "r407" \in vs THEN { [r |-> R407, egress |-> FALSE, pipe |-> FALSE] } ELSE {})
     \cup (IF "r502" \in vs THEN { [r |-> R502(300, FALSE), egress |-> FALSE, pipe |-> FALSE] } ELSE {})
     \cup (IF "pass" \in vs THEN
@@ -230,14 +266,16 @@ FinalSet(k, a, c, o) ==
                 [] Dispatch(k) = "noPort"    -> [r |-> R502(300, FALSE), egress |-> FALSE, pipe |-> FALSE]
                 [] Dispatch(k) = "tcp"       -> IF o = "ok" THEN [r |-> R200, egress |-> TRUE, pipe |-> TRUE]
                                                 ELSE [r |-> TcpFailure(o), egress |-> TRUE, pipe |-> FALSE]
-                [] Dispatch(k) = "mux"       -> IF o = "ok" THEN [r |-> R200, egress |-> TRUE, pipe |-> TRUE]
-                                                ELSE [r |-> R502(300, FALSE), egress |-> TRUE, pipe |-> FALSE] }
+                [] Dispatch(k) = "mux"       -> IF p # "ok" /\ FwdCreds(a, c) = "yes" THEN ProbeFailed ELSE MuxMade }
+            \cup (IF Dispatch(k) = "mux" /\ p # "ok" /\ FwdCreds(a, c) = "maybe" THEN {ProbeFailed} ELSE {})
           ELSE {})
+
+FinalSet(k, a, c, o) == FinalSetP(k, a, c, o, "ok")
 
 CodeTable ==
     \A s \in Streams :
         phase[s] \in {"piping", "done"} =>
-            \E f \in FinalSet(req[s].kind, req[s].auth, cfg, out[s]) :
+            \E f \in FinalSetP(req[s].kind, req[s].auth, cfg, out[s], probe[s]) :
                 /\ resp[s] = << f.r >>
                 /\ f.egress = (\E e \in egress : e[1] = s)
 
